@@ -165,8 +165,26 @@ def repeat_case(draw, tier):
             'reflected': draw(st.booleans())}
 
 
+@st.composite
+def big_repeat_case(draw, tier):
+    """results of 0.1 - 5 Mbit: short content x large count, long content x small count, both around powers of two"""
+    from vf.common import big_bits_st
+    k = draw(st.integers(0, 3))
+    if k == 0:
+        bits = draw(bits_st(max_len=9, min_len=1))
+        n = draw(st.sampled_from([1 << 17, (1 << 20) + 1, 3000000 // max(len(bits), 1), (1 << 21) // len(bits) + 1, 250000]))
+    elif k == 1:
+        bits = draw(bits_of_len(draw(st.sampled_from([1000, 1023, 4097, 65537]))))
+        n = draw(st.sampled_from([33, 257, 1025, 2100, 5000])) if len(bits) < 5000 else draw(st.sampled_from([3, 17, 33, 40]))
+    else:
+        bits = draw(big_bits_st())
+        n = draw(st.sampled_from([2, 3, 4, 5]))
+    return {'cls': draw(cls_st), 'bits': bits, 'route': ['bin', 0], 'n': n, 'reflected': draw(st.booleans())}
+
+
 def run_repeat(case):
-    d, n = case['bits'], case['n']
+    from vf.common import expand_bits
+    d, n = expand_bits(case['bits']), case['n']
     s = build(case['cls'], d, case['route'])
     res = attempt((lambda: n * s) if case['reflected'] else (lambda: s * n))
     if n < 0:
@@ -181,6 +199,7 @@ def run_repeat(case):
 
 
 # --------------------------------------------------------------------------------------------- small world (exhaustive)
+
 
 def small_world(tier):
     maxlen = 5 if tier == 'quick' else 7
@@ -272,6 +291,7 @@ SUBCHECKS = [
     Sub('C01.slice', run_slice, strategy=slice_case, ambient=('bytealigned',), examples={'quick': 12000, 'thorough': 200000}),
     Sub('C01.concat', run_concat, strategy=concat_case, ambient=('bytealigned',), examples={'quick': 12000, 'thorough': 200000}),
     Sub('C01.repeat', run_repeat, strategy=repeat_case, ambient=('bytealigned',), examples={'quick': 6000, 'thorough': 80000}),
+    Sub('C01.repeat_big', run_repeat, strategy=big_repeat_case, examples={'quick': 120, 'thorough': 1500}),
     Sub('C01.file_backed', run_file, strategy=file_case, examples={'quick': 1600, 'thorough': 20000}),
     Sub('C01.small_world', run_small, enum=small_world, examples={'quick': 0, 'thorough': 0},
         enum_exhaustive_note='every content of length <= 5 (quick) / <= 7 (thorough) x every index in [-n-2, n+2] x every (start, stop) in '
